@@ -106,6 +106,7 @@ static Gran *gran_find(u64 key, bool insert) {
     return nullptr;
 }
 static void report_race(SimThread *t, uintptr_t a, bool wr, bool atomic, uintptr_t pc, const Slot &s) {
+    if (G.warmup) return;       // the warm-up run uses the ordinary heap: address reuse would leave stale shadow
     G.races++;
     u64 pa = pc, pb = s.pc; if (pa > pb) { u64 x = pa; pa = pb; pb = x; }
     if (G.races == 1) { G.race_pc_a = pa; G.race_pc_b = pb; }
